@@ -116,3 +116,8 @@ package connection
 //@   invariant 0: forall k string :: has($visited, k) ==> d[k] != nil
 //@   ensures res1 == nil ==> res0 != nil && fresh(res0) && res0.conns != nil && len(res0.conns) == 0 && res0.d == d && len(d) > 0 && DialersOK(res0)
 //@   ensures res1 != nil ==> res0 == nil
+
+// The default manager dials with grpc.DialContext.
+//@ func NewManager
+//@   props C16 C12
+//@   ensures res1 == nil ==> res0 != nil
